@@ -165,7 +165,16 @@ func Finish(l *Loaded, rep *Report, names []string, opt Options, noReplay bool) 
 			if len(tail) > 1500 {
 				tail = tail[len(tail)-1500:]
 			}
-			out.Inconclusive = append(out.Inconclusive, fmt.Sprintf("ENGINE-MISMATCH %s: %s at %s did not reproduce natively; native output tail:\n%s", v.Harness, v.What, v.Pos, tail))
+			dir := filepath.Join(VerifDir, "replays", prop, "mismatch-"+v.Harness+"-"+strings.ReplaceAll(v.What, "/", "_"))
+			if len(dir) > 200 {
+				dir = dir[:200]
+			}
+			os.MkdirAll(dir, 0o755)
+			tb, _ := json.MarshalIndent(v.Tape, "", " ")
+			os.WriteFile(filepath.Join(dir, "tape.json"), tb, 0o644)
+			mb, _ := json.Marshal(map[string]string{"harness": v.Harness, "what": v.What, "kind": v.Kind, "pos": v.Pos, "tier": opt.Tier, "property": prop})
+			os.WriteFile(filepath.Join(dir, "meta.json"), mb, 0o644)
+			out.Inconclusive = append(out.Inconclusive, fmt.Sprintf("ENGINE-MISMATCH %s: %s at %s did not reproduce natively (tape in %s); native output tail:\n%s", v.Harness, v.What, v.Pos, dir, tail))
 		}
 	}
 	// reach witnesses
@@ -187,7 +196,13 @@ func Finish(l *Loaded, rep *Report, names []string, opt Options, noReplay bool) 
 					if len(tail) > 1200 {
 						tail = tail[len(tail)-1200:]
 					}
-					out.Inconclusive = append(out.Inconclusive, fmt.Sprintf("ENGINE-MISMATCH %s: reach witness %q did not replay natively:\n%s", n, w.ID, tail))
+					dir := filepath.Join(VerifDir, "replays", prop, "mismatch-"+n+"-"+w.ID)
+					os.MkdirAll(dir, 0o755)
+					tb, _ := json.MarshalIndent(w.Tape, "", " ")
+					os.WriteFile(filepath.Join(dir, "tape.json"), tb, 0o644)
+					mb, _ := json.Marshal(map[string]string{"harness": n, "what": w.ID, "kind": "reach", "tier": opt.Tier, "property": prop})
+					os.WriteFile(filepath.Join(dir, "meta.json"), mb, 0o644)
+					out.Inconclusive = append(out.Inconclusive, fmt.Sprintf("ENGINE-MISMATCH %s: reach witness %q did not replay natively (tape in %s):\n%s", n, w.ID, dir, tail))
 				}
 			}
 		}
